@@ -263,4 +263,58 @@ theorem cmp_sound (O P : CSpec) (ι : Interp) (hok : pairOk O P = true) (hcomm :
               have e2 := ihx ys h (by simpa using hl) f1 f2 ar br dr er
               rw [← h1, ← h2, e1, e2]
 
+/-- what `searchVal` returns is a candidate with the same opcode whose operands compare equal -/
+theorem searchVal_spec (O P : CSpec) (ins : CInstr) : ∀ (cands : List CInstr) (c : CInstr),
+    searchVal O P ins cands = some (some c) → c ∈ cands ∧ ins.op = c.op ∧ cmpArgs O P (fuelC O P) ins.inp c.inp = some true
+  | [], c, h => by simp [searchVal] at h
+  | d :: ds, c, h => by
+    simp only [searchVal] at h
+    split at h
+    · rename_i hop
+      split at h
+      · simp at h
+      · rename_i hcmp
+        simp at h; subst h
+        exact ⟨by simp, by simpa using hop, hcmp⟩
+      · obtain ⟨h1, h2, h3⟩ := searchVal_spec O P ins ds c h
+        exact ⟨List.mem_cons_of_mem _ h1, h2, h3⟩
+    · obtain ⟨h1, h2, h3⟩ := searchVal_spec O P ins ds c h
+      exact ⟨List.mem_cons_of_mem _ h1, h2, h3⟩
+
+/-- **the accepted matching is one-to-one**: there is a list of distinct-identifier records of the optimized
+    specification, one per record of the original one and in its order, each with the same opcode and operands that
+    compare equal -/
+theorem matchAll_spec (O P : CSpec) : ∀ (os remaining : List CInstr), matchAll O P os remaining = some true →
+    ∃ ms : List CInstr, ms.length = os.length ∧ (∀ m ∈ ms, m ∈ remaining) ∧ (ms.map (·.id)).Nodup ∧
+      ∀ i (h1 : i < os.length) (h2 : i < ms.length),
+        os[i].op = ms[i].op ∧ cmpArgs O P (fuelC O P) os[i].inp ms[i].inp = some true
+  | [], remaining, _ => ⟨[], rfl, by simp, by simp, by intro i h1; simp at h1⟩
+  | ins :: rest, remaining, h => by
+    simp only [matchAll] at h
+    cases hs : searchVal O P ins remaining with
+    | none => simp [hs] at h
+    | some r =>
+      cases r with
+      | none => simp [hs] at h
+      | some c =>
+        simp only [hs] at h
+        obtain ⟨hc1, hc2, hc3⟩ := searchVal_spec O P ins remaining c hs
+        obtain ⟨ms, hl, hmem, hnd, hall⟩ := matchAll_spec O P rest (remaining.filter fun x => x.id != c.id) h
+        refine ⟨c :: ms, by simp [hl], ?_, ?_, ?_⟩
+        · intro m hm
+          rcases List.mem_cons.mp hm with rfl | hm
+          · exact hc1
+          · exact (List.mem_filter.mp (hmem m hm)).1
+        · simp only [List.map_cons, List.nodup_cons]
+          refine ⟨?_, hnd⟩
+          intro hin
+          obtain ⟨m, hm, hid⟩ := List.mem_map.mp hin
+          have := (List.mem_filter.mp (hmem m hm)).2
+          simp at this
+          exact this hid
+        · intro i h1 h2
+          cases i with
+          | zero => exact ⟨hc2, hc3⟩
+          | succ i => simpa using hall i (by simpa using h1) (by simpa using h2)
+
 end GasolVerif.Cmp
